@@ -104,7 +104,7 @@ def classify(facts, tn, f, bi, kind, t):
                 if x[0] == "c" and 0 <= x[1] <= 127:
                     return "from-primitive-const", "from_u8(%d) exists for every integer type" % x[1]
                 if x[0] == "bin" and x[1] == "Sub" and x[3] == ("c", 48):
-                    g = guards.holds(f, bi, lambda fa: fa[0] == "cmp" and fa[1] == "Le" and fa[3] == ("c", 57) or fa[0] == "cmp" and fa[1] == "Le" and fa[2] == ("c", 48))
+                    g = guards.holds(f, bi, lambda fa: fa[0] == "cmp" and fa[1] == "Le" and fa[3] == ("c", 57) or fa[0] == "cmp" and fa[1] == "Le" and fa[2] == ("c", 48) or fa[0] == "bool" and fa[2] is True and fa[1][0] == "call" and norm(fa[1][2]).endswith("is_ascii_digit"))
                     if g:
                         return "from-primitive-digit", "from_u8(byte - b'0') with byte in '0'..='9'"
             if n.endswith("Vec::pop"):
